@@ -395,7 +395,7 @@ def r03_6(ctx):
     r.scope.append(fn)
     seq = [bi for bi, t, args in core.atomic_sites(b, "write_seq", "store")]
     epo = [bi for bi, t, args in core.atomic_sites(b, "write_epoch", "store")]
-    r.need("hand-over stores (write_seq / write_epoch) in handle_finished", min(len(seq), len(epo)), 2)
+    r.need("hand-over stores (write_seq) in handle_finished", len(seq), 2)
 
     def connected(v):
         return mir.has(v, lambda x: x[0] == "agg" and x[2] == "Connected")
@@ -418,5 +418,49 @@ def r03_6(ctx):
     return r
 
 
+def r03_7(ctx):
+    """same clause, the other reader of the pair: the close path of the handshake loop decides by `write_epoch == ctx.epoch`
+    whether the counters have been handed over (then the close_notify draws its number from write_seq, else from the
+    handshake's own counter). That test is only right if write_epoch and write_seq move TOGETHER: a write_epoch stored at
+    ChangeCipherSpec time - while write_seq still holds 0 and the Finished has just used (epoch 1, sequence 0) - makes a
+    close() in that window seal the alert under the Finished's nonce. Decided: in every function, each store to
+    write_epoch is followed on every path by a store to write_seq before the function can suspend or return."""
+    r = RuleResult("R03.7", "K4", "write_epoch and write_seq are handed over together")
+    n = 0
+    for b in ctx.facts.bodies(prefix="transports::dtls::"):
+        if "::tests::" in b.name or "security_tests" in b.name:
+            continue
+        epo = [bi for bi, t, args in core.atomic_sites(b, "write_epoch", "store")]
+        if not epo:
+            continue
+        r.scope.append(b.name)
+        seq = [bi for bi, t, args in core.atomic_sites(b, "write_seq", "store")]
+        stops = {bi for bi, blk in enumerate(b.blocks) if blk["t"]["k"] in ("yield", "ret") and bi not in b.cleanup}
+        for e in epo:
+            n += 1
+            # blocks reachable from e without passing a write_seq store
+            seen, work, bad = set(), [t for t, _ in b.succ_edges(e)], None
+            while work:
+                x = work.pop()
+                if x in seen or x in b.cleanup:
+                    continue
+                seen.add(x)
+                if x in seq:
+                    continue
+                if x in stops:
+                    bad = x
+                    break
+                work += [t for t, _ in b.succ_edges(x)]
+            if bad is None and seq:
+                r.ok({"site": b.where(e), "followed_by": "write_seq.store before any suspension / return"})
+            else:
+                r.violate(b.name, "handover:epoch-without-seq", b.where(e),
+                          "write_epoch is stored here but the function can suspend or return (%s) before write_seq is: in between, "
+                          "`write_epoch == ctx.epoch` claims the counters were handed over and the close path draws sequence numbers the "
+                          "handshake has already used (nonce reuse with the Finished)" % (b.where(bad) if bad is not None else "-"))
+    r.need("write_epoch stores", n, 2)
+    return r
+
+
 def run(ctx):
-    return [r03_1(ctx), r03_2(ctx), r03_3(ctx), r03_4(ctx), r03_5(ctx), r03_6(ctx)]
+    return [r03_1(ctx), r03_2(ctx), r03_3(ctx), r03_4(ctx), r03_5(ctx), r03_6(ctx), r03_7(ctx)]
